@@ -246,6 +246,7 @@ class ANF:
         self._stack = frozenset()
         self._localfns = {}
         self._aug = None
+        self._continues = {}
 
     # ------------------------------------------------------------------ driver
     def run(self):
@@ -374,6 +375,9 @@ class ANF:
             self.block(s.finalbody, env, cond, loops)
             return False
         if isinstance(s, (ast.Break, ast.Continue)):
+            if isinstance(s, ast.Continue) and loops:
+                # the bindings with which the next pass starts from here (merged with the end of the body in loop())
+                self._continues.setdefault(loops[-1], []).append(dict(env))
             return True         # leaves the rest of the loop body
         if isinstance(s, (ast.Pass, ast.Import, ast.ImportFrom, ast.Global, ast.Nonlocal, ast.Assert, ast.Delete,
                           ast.FunctionDef, ast.ClassDef)):
@@ -427,10 +431,19 @@ class ANF:
                 self._bind_loop_targets(tg, ("loop", lid), env)
             else:
                 self.assign(tg, ("loop", lid, 0), env, cond, loops, s)
+        if isinstance(s, ast.While):
+            # the test as every pass evaluates it (loop-carried names are symbols), not only before the first pass
+            it = ("while", self.eval(s.test, dict(env), cond, loops))
         self.res.loops[lid] = {"iter": it, "node": s, "cond": cond}
         inner = loops + (lid,)
         e2 = dict(env)
         self.block(s.body, e2, cond, inner)
+        # a `continue` starts the next pass with the bindings it saw: names bound differently there are merged
+        for ce in self._continues.pop(lid, []):
+            for nm in assigned:
+                a_, b_ = e2.get(nm), ce.get(nm)
+                if a_ is not None and b_ is not None and key(a_) != key(b_):
+                    e2[nm] = ("merge", lid, a_, b_)
         self.res.loops[lid]["env"] = e2
         for nm in assigned:
             v = e2.get(nm)
